@@ -187,9 +187,23 @@ type child struct {
 	cur        *hcase
 	secs       float64
 	scanStride int
+	nCostly    int
 }
 
 func (c *child) count(k string) { c.ctr[k]++ }
+
+// costly notes a violation whose reproduction is expensive (the code under test obtained
+// hundreds of megabytes): after a few of them the batch stops early — the verdict is
+// already "violation", and zeroing gigabytes per case would take the run far beyond its
+// budget.  Cheap violations never stop a batch, so a known finding does not reduce coverage.
+func (c *child) costly() {
+	c.nCostly++
+	if c.nCostly >= 8 {
+		c.count("batch_stopped_after_costly_violations")
+		c.flush(true)
+		os.Exit(0)
+	}
+}
 
 func (c *child) violation(key, what string, extra map[string]interface{}) {
 	c.violSeen[key]++
@@ -297,6 +311,9 @@ func (c *child) checkPayload(cmd string, payload []byte, tag string, oneByte boo
 			c.count("alloc_excess")
 			c.violation("alloc:decode:"+name, fmt.Sprintf("decoding a %d-byte %s payload allocated %d bytes in large objects (allowance %d = header + L + %d·L + %d)", len(payload), name, ex, bound, ampK, allocSlack),
 				map[string]interface{}{"allocated": ex, "allowance": bound})
+			if ex > 256<<20 {
+				c.costly()
+			}
 		} else {
 			c.count("alloc_excess_not_confirmed")
 		}
@@ -566,6 +583,9 @@ func (c *child) checkStream(hc *hcase) {
 		c.count("stream_rejected:" + cls)
 		if ex, ok := confirm(smallAlloc); !ok {
 			c.violation("alloc:stream:"+cls, fmt.Sprintf("rejected only after allocating %d bytes (declared length %d): the check does not come before the payload buffer", ex, hc.declLen), map[string]interface{}{"allocated": ex})
+			if ex > 256<<20 {
+				c.costly()
+			}
 		} else {
 			c.count("stream_rejected_before_alloc:" + cls)
 		}
@@ -581,6 +601,9 @@ func (c *child) checkStream(hc *hcase) {
 		}
 		if ex, ok := confirm(d + smallAlloc); !ok {
 			c.violation("alloc:stream:"+cls, fmt.Sprintf("allocated %d bytes for a declared length of %d", ex, hc.declLen), map[string]interface{}{"allocated": ex})
+			if ex > 256<<20 {
+				c.costly()
+			}
 		}
 	default:
 		if err != nil {
